@@ -2864,7 +2864,10 @@ class LinearOperator(object):
                 if _is_tensor_index_moved_to_start(orig_indices):
                     res = res.view(*tensor_index_shape, *res.shape[1:])
                 else:
-                    res = res.view(*res.shape[:-1], *tensor_index_shape)
+                    # The flattened tensor index follows the sliced dimensions that precede the first tensor index
+                    first_tensor_loc = next(i for i, idx in enumerate(orig_indices) if torch.is_tensor(idx))
+                    loc = sum(isinstance(idx, slice) for idx in orig_indices[:first_tensor_loc])
+                    res = res.view(*res.shape[:loc], *tensor_index_shape, *res.shape[loc + 1 :])
         else:
             res = self._getitem(row_index, col_index, *batch_indices)
 
